@@ -26,9 +26,9 @@ MANIFEST = {
     'technique': 'deductive: VCs from the real AST of _generic_transitions_to_jumps with nested loop invariants, product-program invariant for monotonicity, '
                  'history-level lemmas; z3/cvc5; native replay; exhaustive short histories and random long histories as bounded stand-in',
 }
-UNITS = ['unit_sound', 'unit_default', 'unit_lemmas']
+UNITS = ['unit_sound', 'unit_default', 'unit_monotone', 'unit_lemmas']
 BOUNDED = ['bounded_histories']
-META = {'clauses': {'C04.E1': 'P', 'C04.E2': 'P', 'C04.E3': 'see unit_monotone', 'pandas row/groupby semantics': 'A'},
+META = {'clauses': {'C04.E1': 'P', 'C04.E2': 'P', 'C04.E3': 'P (product invariant over the real loop body; DataFrame build + row-local filter preserve the subset relation: argued, A-PANDAS)', 'pandas row/groupby semantics': 'A'},
         'not_decided': []}
 
 FN = 'gemdat.jumps._generic_transitions_to_jumps'
@@ -360,6 +360,133 @@ def unit_default(tier):
     return u
 
 
+def unit_monotone(tier):
+    """E3 (2-safety): the real inner-loop body is executed twice on the same event row, with residences m1 <= m2, from states related by the
+    product invariant  PHI:  fromevent identical; candidate of run 1 present => identical candidate in run 2; candidate of run 2 present and run 1's
+    absent => that row is already collected in run 1; every row collected in run 2 is collected in run 1.  PHI holds at the start of every atom
+    (both None, lists related) and is preserved by the body, so the rows collected (hence, after the row-local filter, reported) with m2 are a subset of
+    those with m1.  No assumption on the event rows is needed."""
+    import ast
+    import time as _time
+    from verif.engine.core import explore
+    from verif.engine.interp import Env, Interp, _Continue
+    u = Unit('C04.monotone')
+    install_common(u)
+    label = 'gemdat.jumps._generic_transitions_to_jumps[E3: product of two runs of the loop body, m1 <= m2]'
+    info = {'n_return': 0, 'n_raise': 0, 'n_step': 0}
+
+    def find_body():
+        fi = u.sources.function('gemdat.jumps', '_generic_transitions_to_jumps')
+        if fi is None:
+            raise Unsupported('function not found')
+        outer = [n for n in fi.node.body if isinstance(n, ast.For)]
+        if len(outer) != 1:
+            raise Unsupported('expected one outer loop over the per-atom event groups')
+        inner = [n for n in outer[0].body if isinstance(n, ast.For)]
+        pre = [n for n in outer[0].body if not isinstance(n, ast.For)]
+        if len(inner) != 1:
+            raise Unsupported('expected one inner loop over the events of an atom')
+        return fi, outer[0], pre, inner[0]
+
+    def eq_rows(f1, f2):
+        return z3.And(*[to_z3(f1[f]) == to_z3(f2[f]) for f in ROWF])
+
+    def run(ctx):
+        interp = Interp(ctx, u.sources, u)
+        fi, outer, pre, inner = find_body()
+        ctx.func = FN
+        interp.cur_func = FN
+        m1, m2 = z3.Ints('m1 m2')
+        ctx.assume(z3.And(m1 >= 0, m1 <= m2))
+        ev = {f: ctx.fresh_int('event_' + f.replace(' ', '_')) for f in ROWF}
+        st = []
+        for r, m in ((1, m1), (2, m2)):
+            env = Env(fi.module_env(interp))
+            env.set('minimal_residence', m)
+            env.set('jumps', _jumps_maker(interp, env, None))
+            env.set('fromevent', _row_maker(f'run{r}_fromevent')(interp, env, None))
+            env.set('candidate_jump', _row_maker(f'run{r}_candidate')(interp, env, None))
+            st.append(env)
+        e1, e2 = st
+        # ---- PHI assumed before the body ---------------------------------------------------------------------
+        j1, j2 = e1.get('jumps', interp), e2.get('jumps', interp)
+        L1, L2 = to_z3(j1.length), to_z3(j2.length)
+        W = ctx.fresh_fun('witness', z3.IntSort(), z3.IntSort())
+        ci = ctx.fresh_int('candidate_index')
+        j = z3.Int('pj')
+        fn1, ff1 = _opt(e1.get('fromevent', interp))
+        fn2, ff2 = _opt(e2.get('fromevent', interp))
+        cn1, cf1 = _opt(e1.get('candidate_jump', interp))
+        cn2, cf2 = _opt(e2.get('candidate_jump', interp))
+        ctx.assume(z3.And(fn1 == fn2, z3.Implies(z3.Not(fn1), eq_rows(ff1, ff2))))
+        ctx.assume(z3.Implies(z3.Not(cn1), z3.And(z3.Not(cn2), eq_rows(cf1, cf2))))
+        ctx.assume(z3.Implies(z3.And(z3.Not(cn2), cn1), z3.And(ci >= 0, ci < L1, eq_rows(j1.fn(ci).fields, cf2))))
+        ctx.assume(z3.ForAll([j], z3.Implies(z3.And(j >= 0, j < L2), z3.And(W(j) >= 0, W(j) < L1, eq_rows(j1.fn(W(j)).fields, j2.fn(j).fields))), patterns=[W(j)]))
+        ctx.ghost['requires_len'] = len(ctx.hyps)
+        # ---- the real loop body, once per run, on copies of the same event row --------------------------------
+        for env in (e1, e2):
+            interp.assign(inner.target, (ctx.fresh_int('label'), SRow(dict(ev))), env)
+            try:
+                interp.exec_block(inner.body, env)
+            except _Continue:
+                pass
+        # ---- PHI after the body -------------------------------------------------------------------------------
+        j1n, j2n = e1.get('jumps', interp), e2.get('jumps', interp)
+        L1n, L2n = to_z3(j1n.length), to_z3(j2n.length)
+        fn1, ff1 = _opt(e1.get('fromevent', interp))
+        fn2, ff2 = _opt(e2.get('fromevent', interp))
+        cn1, cf1 = _opt(e1.get('candidate_jump', interp))
+        cn2, cf2 = _opt(e2.get('candidate_jump', interp))
+        ctx.oblige(f'{label}.fromevent identical in both runs', z3.And(fn1 == fn2, z3.Implies(z3.Not(fn1), eq_rows(ff1, ff2)) if ff1 is not None and ff2 is not None else z3.BoolVal(True)), kind='inv-step')
+        if cf1 is not None:
+            ctx.oblige(f'{label}.candidate of run 1 is the candidate of run 2', z3.Implies(z3.Not(cn1), z3.And(z3.Not(cn2), eq_rows(cf1, cf2) if cf2 is not None else z3.BoolVal(False))), kind='inv-step')
+        wit = [ci, L1, L1 + 1]
+        if cf2 is not None:
+            ctx.oblige(f'{label}.a candidate only run 2 still holds is already collected in run 1', z3.Implies(z3.And(z3.Not(cn2), cn1), z3.Or(*[
+                z3.And(i >= 0, i < L1n, eq_rows(j1n.fn(i).fields, cf2)) for i in wit])), kind='inv-step')
+        ctx.oblige(f'{label}.every row collected with the larger residence is collected with the smaller one', z3.ForAll([j], z3.Implies(z3.And(j >= 0, j < L2n), z3.Or(*[
+            z3.And(i >= 0, i < L1n, eq_rows(j1n.fn(i).fields, j2n.fn(j).fields)) for i in [W(j)] + wit]))), kind='inv-step')
+        ctx.oblige(f'{label}.lists only grow', z3.And(L1n >= L1, L2n >= L2), kind='inv-step')
+        info['n_return'] += 1
+        return 'return', None
+
+    def run_init(ctx):
+        """PHI at the start of an atom: the statements before the inner loop reset both optional rows to None in both runs."""
+        interp = Interp(ctx, u.sources, u)
+        fi, outer, pre, inner = find_body()
+        ctx.func = FN
+        interp.cur_func = FN
+        ctx.ghost['requires_len'] = len(ctx.hyps)
+        env = Env(fi.module_env(interp))
+        interp.exec_block(pre, env)
+        ok = env.get('fromevent', interp) is None and env.get('candidate_jump', interp) is None
+        ctx.oblige(f'{label}.init.both optional rows are None at the start of every atom, independently of the residence', z3.BoolVal(bool(ok)), kind='inv-init')
+        names = {n.id for st_ in pre for n in ast.walk(st_) if isinstance(n, ast.Name)}
+        ctx.oblige(f'{label}.init.the reset does not read minimal_residence', z3.BoolVal('minimal_residence' not in names), kind='inv-init')
+        # outside the loop body the residence must not be used at all (the rest of the function is identical in both runs)
+        inner_names = set()
+        uses_out = False
+        for n in ast.walk(fi.node):
+            if isinstance(n, ast.Name) and n.id == 'minimal_residence':
+                inside = any(n is x for x in ast.walk(inner))
+                uses_out = uses_out or not inside
+        ctx.oblige(f'{label}.init.minimal_residence is read only inside the event loop', z3.BoolVal(not uses_out), kind='inv-init')
+        return 'return', None
+    for lab, fn_ in ((label, run), (label + '.init', run_init)):
+        t0 = _time.time()
+        try:
+            paths = explore(fn_, func=FN, max_paths=4000)
+        except Unsupported as e:
+            u.results.append({'unit': u.name, 'label': lab, 'status': 'unsupported', 'reason': f'{e} (line {getattr(e, "line", None)})'})
+            continue
+        except (z3.Z3Exception, TypeError, AttributeError, KeyError, IndexError, ValueError, AssertionError) as e:
+            u.results.append({'unit': u.name, 'label': lab, 'status': 'unsupported', 'reason': f'engine exception {type(e).__name__}: {e}'})
+            continue
+        u._collect(lab, paths, _time.time() - t0, info)
+        u.results[-1]['replay'] = {'fn': 'verif.props.c04:replay_history', 'sizes': lambda st: [], 'concretise': lambda mm, st, ob: {'seed': 13}}
+    return u
+
+
 def unit_lemmas(tier):
     u = Unit('C04.lemmas')
 
@@ -372,6 +499,58 @@ def unit_lemmas(tier):
         uu = z3.If(a(ts + 1) == D, ts + 1, stop)
         return [('first site reached after leaving S is D', z3.And(uu > ts, uu <= stop, a(uu) == D, z3.ForAll([v], z3.Implies(z3.And(ts < v, v < uu), a(v) == -1))))]
     u.lemma('C04.E2.J-implies-default-jump', dj)
+
+    I = z3.IntSort()
+
+    def history(ctx):
+        """one atom, default mode: events = all change times of a, in time order (C03 postcondition)"""
+        a, tm, rowof = z3.Function('a', I, I), z3.Function('tm', I, I), z3.Function('rowof', I, I)
+        n, T = z3.Ints('n T')
+        i, j, k, v, t = z3.Ints('i j k v t')
+        st = lambda kk: a(tm(kk))  # noqa: E731
+        ds = lambda kk: a(tm(kk) + 1)  # noqa: E731
+        ctx.assume(z3.And(n >= 0, T >= 2))
+        ctx.assume(z3.ForAll([k], z3.Implies(z3.And(k >= 0, k < n), z3.And(tm(k) >= 0, tm(k) < T - 1, st(k) != ds(k))), patterns=[tm(k)]))
+        ctx.assume(z3.ForAll([i, j], z3.Implies(z3.And(i >= 0, i < j, j < n), tm(i) < tm(j)), patterns=[z3.MultiPattern(tm(i), tm(j))]))
+        ctx.assume(z3.ForAll([k, v], z3.Implies(z3.And(k >= 1, k < n, tm(k - 1) < v, v <= tm(k)), a(v) == ds(k - 1)), patterns=[z3.MultiPattern(tm(k), a(v))]))
+        ctx.assume(z3.ForAll([t], z3.Implies(z3.And(t >= 0, t < T - 1, a(t) != a(t + 1)), z3.And(rowof(t) >= 0, rowof(t) < n, tm(rowof(t)) == t)), patterns=[rowof(t)]))
+        emit = lambda kk: z3.And(ds(kk) != -1, z3.Or(st(kk) != -1, z3.And(kk >= 1, st(kk - 1) != ds(kk))))  # noqa: E731
+        JR = lambda kk: (z3.If(st(kk) != -1, st(kk), st(kk - 1)), ds(kk), z3.If(st(kk) != -1, tm(kk), tm(kk - 1)), tm(kk) + 1)  # noqa: E731
+
+        def DJ(S, D, ts, uu):
+            return z3.And(ts >= 0, ts < uu, uu < T, a(ts) == S, S != -1, a(ts + 1) != S, a(uu) == D, D != -1, D != S,
+                          z3.ForAll([v], z3.Implies(z3.And(ts < v, v < uu), a(v) == -1), patterns=[a(v)]))
+        return a, tm, rowof, n, T, emit, JR, DJ
+
+    def sub(ctx):
+        a, tm, rowof, n, T, emit, JR, DJ = history(ctx)
+        k = z3.Int('k0')
+        ctx.assume(z3.And(k >= 0, k < n, emit(k)))
+        ctx.assume(z3.Implies(k >= 1, tm(k - 1) == tm(k - 1)))  # mention the previous row (instantiation term)
+        return [('every emitted row is a default jump', DJ(*JR(k)))]
+    u.lemma('C04.E1.emitted-rows-are-default-jumps', sub)
+
+    def sup(ctx):
+        a, tm, rowof, n, T, emit, JR, DJ = history(ctx)
+        t0, u0 = z3.Ints('t0 u0')
+        ctx.assume(DJ(a(t0), a(u0), t0, u0))
+        k = rowof(u0 - 1)
+        ctx.assume(z3.And(rowof(t0) == rowof(t0), tm(k - 1) == tm(k - 1)))  # instantiation terms
+        S, D, ts, uu = JR(k)
+        return [('the arrival event of a default jump emits', z3.And(k >= 0, k < n, emit(k))),
+                ('and its row is that jump', z3.And(S == a(t0), D == a(u0), ts == t0, uu == u0))]
+    u.lemma('C04.E1.every-default-jump-is-emitted-by-its-arrival-event', sup)
+
+    def mono(ctx):
+        """positions OFF(g)+CNT(g,k) are strictly increasing along emitting rows: CNT(k1) <= CNT(k2) for k1 <= k2 (induction on k2)"""
+        CNT = z3.Function('CNT', I, I)
+        e = z3.Function('emit', I, z3.BoolSort())
+        k1, k2 = z3.Ints('k1 k2')
+        ctx.assume(z3.And(k1 >= 0, k2 >= k1))
+        ctx.assume(CNT(k2 + 1) == CNT(k2) + z3.If(e(k2), 1, 0))
+        ctx.assume(CNT(k1) <= CNT(k2))
+        return [('base', CNT(k1) <= CNT(k1)), ('step', CNT(k1) <= CNT(k2 + 1)), ('an emitting row advances the position', z3.Implies(e(k2), CNT(k2) < CNT(k2 + 1)))]
+    u.lemma('C04.E1.positions-increase(induction)', mono)
     return u
 
 
